@@ -9,11 +9,11 @@ EXTENDS Naturals, Integers, Sequences, FiniteSets, TLC
 OptNames == {"n", "m", "s", "a", "e", "d", "R", "u", "M", "r", "c", "w", "f", "L", "q", "O", "o", "j"}
 \* X04 (beyond the list): options whose effect is a side effect -- C = -C/--command, E = -E/--echo, G = --debug-file, D = -D/--debug,
 \* T = -T/--output-format, P = --save-image
-FxNames == {"C", "E", "G", "D", "T", "P"}
+FxNames == {"C", "E", "G", "D", "T", "P", "I", "F"}        \* I = -I/--input-device-index, F = -F/--audio-frame-per-buffer (microphone input)
 NoVal == "none"
 Defaults == [n |-> 2000, m |-> 50000, s |-> 3000, a |-> 100, e |-> 50, d |-> FALSE, R |-> FALSE, u |-> NoVal, M |-> -1,
              r |-> 16000, c |-> 1, w |-> 2, f |-> NoVal, L |-> FALSE, q |-> FALSE, O |-> NoVal, o |-> NoVal, j |-> -1,
-             C |-> NoVal, E |-> FALSE, G |-> NoVal, D |-> FALSE, T |-> NoVal, P |-> NoVal]
+             C |-> NoVal, E |-> FALSE, G |-> NoVal, D |-> FALSE, T |-> NoVal, P |-> NoVal, I |-> -1, F |-> 1024]
 Eff(o, k) == IF k \in DOMAIN o THEN o[k] ELSE Defaults[k]
 \* what the API must be given (long names); M = -1 stands for "no max_read"
 Kwargs(o) == [min_dur |-> Eff(o, "n"), max_dur |-> Eff(o, "m"), max_silence |-> Eff(o, "s"), analysis_window |-> Eff(o, "a"),
@@ -38,6 +38,8 @@ Plots(o) == Exit(o) = 0 /\ "P" \in DOMAIN o               \* plot() gets the who
 \* recording off whenever -O is given, counting on the stream saver to hold the data, but with -j the saver is an observer, not a reader), so
 \* the plotting step finds nothing to rewind and main() ends with an AttributeError -- after the files have been written.
 PlotCrashes(o) == Exit(o) = 0 /\ "P" \in DOMAIN o /\ "O" \in DOMAIN o /\ "j" \in DOMAIN o
+\* no input argument = the microphone: the device is opened with the -r / -c / -w values, the device index of -I (none by default) and -F frames per buffer
+MicOpen(o) == <<Eff(o, "r"), Eff(o, "c"), Eff(o, "w"), Eff(o, "I"), Eff(o, "F")>>
 OutFormat(o) == IF "T" \in DOMAIN o THEN o["T"] ELSE "wav"   \* of the -O / -o files (their names end in .wav in the harness)
 (* time formats: a printed time is parsed into whole milliseconds W; the exact instant is num/den MILLISECONDS
    (for a detection at sample f of a stream at rate r: num = 1000 f, den = r) *)
